@@ -71,7 +71,7 @@ pub fn run(ctx: &mut Ctx, _args: &Args) {
         canned_u10ffff(ctx);
     }
     stage_exhaustive(ctx);
-    let n = ctx.tier.pick(60_000, 1_500_000);
+    let n = ctx.tier.pick(250_000, 3_000_000);
     for i in 0..n {
         if ctx.mine(i) {
             random_item(ctx, i);
@@ -204,7 +204,7 @@ fn random_item(ctx: &mut Ctx, item: usize) {
         ctx.count(&format!("def:{}", d.kind()), 1);
         let chk = check_intersection(ctx, &id, &prep, exact, &d);
         if let (Some(k), Some(ka)) = (&chk.keys, &chk_all.keys) {
-            if chk.quirk || chk_all.quirk {
+            if chk.quirk || chk_all.quirk || (!exact && tainted(font, &all)) {
                 ctx.count("oracle:subset-of-all:skipped-known-defect", 1);
             } else {
                 check_subset(ctx, &id, "subset-of-all", k, &d, ka, &all);
@@ -223,7 +223,7 @@ fn random_item(ctx: &mut Ctx, item: usize) {
         } else {
             let chk_g = check_intersection(ctx, &id, &prep, exact, &g);
             if let (Some(k), Some(kg)) = (&chk.keys, &chk_g.keys) {
-                if chk.quirk || chk_g.quirk {
+                if chk.quirk || chk_g.quirk || (!exact && (tainted(font, &d) || tainted(font, &g))) {
                     ctx.count("oracle:monotone:skipped-known-defect", 1);
                 } else {
                     check_subset(ctx, &id, "monotone", k, &d, kg, &g);
